@@ -152,7 +152,13 @@ func (s *Seg) LogBytes() []byte {
 // IndexBytes renders the index derived from the log file; carry is the
 // timestamp floor the first item starts from (0 when derived by reindexing).
 func (s *Seg) IndexBytes(times, keys bool, carry int64) ([]byte, int64) {
-	b := append([]byte{}, IndexHeader(s.V1, times, keys)...)
+	return s.IndexBytesVer(s.V1, times, keys, carry)
+}
+
+// IndexBytesVer renders the index in the given index-file version (positions
+// always follow the version of the log file).
+func (s *Seg) IndexBytesVer(idxV1 bool, times, keys bool, carry int64) ([]byte, int64) {
+	b := append([]byte{}, IndexHeader(idxV1, times, keys)...)
 	pos := int64(len(LogHeader(s.V1)))
 	ts := carry
 	for _, r := range s.Recs {
